@@ -149,7 +149,7 @@ def outcome_conc(Co, ms, init, threads, first, switches, record=None, onmiss=0):
     for k, v in init:
         coro.drive(c.__setitem__(k, v))
     gens = [thread_gen(c, oplist) for oplist in threads]
-    res, dead = coro.run_concurrent(c._lock, gens, first, switches, record=record)
+    res, dead = coro.run_concurrent(None, gens, first, switches, record=record)
     if dead:
         return ('deadlock',), c
     contents = sorted((k.i, repr(v)) for k, v in dict.items(c))
